@@ -28,6 +28,7 @@ type world struct {
 	e      *env.Env
 	own    [3]*owner
 	serial int
+	lastFresh string
 }
 
 func newWorld() (*world, error) {
@@ -134,7 +135,7 @@ func (w *world) run(k *Case) (line, impl string) {
 		if o == nil {
 			return &env.Issued{OrderID: "noSuchOrder", AuthzID: "noSuchAuthz", ChID: "noSuchChallenge", CertID: "noSuchCert"}
 		}
-		if k.Which == "pending" {
+		if k.Which == "pending" && k.Route != "cert" && k.Route != "revoke" {
 			return o.pending
 		}
 		return o.valid
@@ -407,7 +408,7 @@ func (w *world) run(k *Case) (line, impl string) {
 			accOrder = append(accOrder, a.ID)
 		}
 	}
-	vcert := false
+	ckey := 0
 	kidBaseID := ""
 	if isParsed {
 		ns = len(parsed.Signatures)
@@ -475,17 +476,29 @@ func (w *world) run(k *Case) (line, impl string) {
 					}
 				}
 			}
-			if len(vers) > 0 {
-				verF = strings.Join(vers, ",")
-			}
 			nonceN = in.id("nonce:" + h.Nonce)
 			if u, ok := h.ExtraHeaders["url"].(string); ok {
 				jurl = fmt.Sprint(in.id("url:" + u))
 			}
 			pe = len(parsed.UnsafePayloadWithoutVerification()) == 0
 			if revCert != nil && revCert.Cert != nil && ns == 1 {
-				_, err := parsed.Verify(revCert.Cert.PublicKey)
-				vcert = err == nil
+				ck := &jose.JSONWebKey{Key: revCert.Cert.PublicKey}
+				if th, err := acme.KeyToID(ck); err == nil {
+					ckey = in.id("key:" + th)
+					have := false
+					for _, x := range vers {
+						if strings.HasPrefix(x, fmt.Sprintf("%d:", ckey)) {
+							have = true
+						}
+					}
+					if !have {
+						v := env.Verify(body, revCert.Cert.PublicKey)
+						vers = append(vers, fmt.Sprintf("%d:%s%s%s%s", ckey, c.B(v.Ver0), c.B(v.PadR), c.B(v.PadS), c.B(v.PadRS)))
+					}
+				}
+			}
+			if len(vers) > 0 {
+				verF = strings.Join(vers, ",")
 			}
 		}
 	}
@@ -558,10 +571,11 @@ func (w *world) run(k *Case) (line, impl string) {
 	rec := e.DoCT("POST", p, ct, body)
 	cls := env.Class(rec)
 	verdict := cls
-	if rec.Code < 300 || (k.Route == "finalize" && cls == "403:orderNotReady") {
+	if rec.Code < 300 || (k.Route == "finalize" && strings.HasSuffix(cls, ":orderNotReady")) {
 		verdict = "ok"
 	}
 	fresh := rec.Header().Get("Replay-Nonce")
+	w.lastFresh = fresh
 	nlAfter := nonceStr != "" && e.NonceLive(nonceStr)
 	accAfter := "-"
 	if kidBaseID != "" {
@@ -582,12 +596,16 @@ func (w *world) run(k *Case) (line, impl string) {
 	f["m"], f["p"] = "POST", c.X(pattern)
 	f["pid"], f["pname"], f["pknown"] = fmt.Sprint(in.id("prov:"+provID)), fmt.Sprint(in.id("pname:"+provName)), c.B(provID != "")
 	f["url"] = fmt.Sprint(in.id("url:" + reqURL))
-	f["ct"] = c.B(ct == "application/jose+json")
+	f["ct"] = fmt.Sprint(map[string]int{"application/jose+json": 0, "application/pkix-cert": 1, "application/pkcs7-mime": 2}[ct])
+	if _, known := map[string]int{"application/jose+json": 0, "application/pkix-cert": 1, "application/pkcs7-mime": 2}[ct]; !known {
+		f["ct"] = "3"
+	}
+	cpath := strings.Contains(reqURL, "/"+provName+"/certificate/")
 	f["parsed"] = c.B(isParsed)
 	f["fresh"] = fmt.Sprint(in.id("nonce:" + fresh + "#fresh"))
-	line = fmt.Sprintf("req m=POST p=%s pid=%s pname=%s pknown=%s url=%s ct=%s parsed=%s fresh=%s tgt=%d tgt2=%d plok=%s deact=%s only=%s vcert=%s "+
+	line = fmt.Sprintf("req m=POST p=%s pid=%s pname=%s pknown=%s url=%s ct=%s cpath=%s parsed=%s fresh=%s tgt=%d tgt2=%d plok=%s deact=%s only=%s ckey=%d "+
 		"ns=%d ue=%s ac=%s alg=%d es=%s short=%d jwk=%s kid=%d kb=%d kpre=%s nonce=%d jurl=%s ver=%s pe=%s nl=%s accs=%s ord=%s az=%s ch=%s cert=%s",
-		f["p"], f["pid"], f["pname"], f["pknown"], f["url"], f["ct"], f["parsed"], f["fresh"], tgtN, tgt2N, c.B(plok), c.B(deact), c.B(only), c.B(vcert),
+		f["p"], f["pid"], f["pname"], f["pknown"], f["url"], f["ct"], c.B(cpath), f["parsed"], f["fresh"], tgtN, tgt2N, c.B(plok), c.B(deact), c.B(only), ckey,
 		ns, c.B(ue), ac, algN, c.B(es), short, jwkF, kidN, kbN, c.B(kpre), nonceN, jurl, verF, c.B(pe), c.B(nlBefore),
 		c.List(accL), ordF, azF, chF, certF)
 	js, _ := json.Marshal(k)
